@@ -49,7 +49,7 @@ def c11agreeLine (rest : String) : IO String := do
         let (fp, rp) := pyRoundTripAuto ssPy pkg obj j
         let (fg, rg) := goRoundTripFuel ssGo pkg obj j
         let t : Ty := .ref pkg obj {}
-        let pyden := wfJson j && (pyDen fp ssPy t none j || pyDen (fp + 2) ssPy t none j || pyDen (fp + 4) ssPy t none j)
+        let pyden := wfJson j && (pyDen fp ssPy t j || pyDen (fp + 2) ssPy t j || pyDen (fp + 4) ssPy t j)
         let goden := den fg ssGo t j || den (fg + 2) ssGo t j || den (fg + 4) ssGo t j
         let acc := accepts fp ssPy t j || accepts (fp + 2) ssPy t j || accepts (fp + 4) ssPy t j
         let verdict := match rp, rg with
